@@ -148,59 +148,383 @@ def ingroup(facts, cls, name, countfield, res):
             res.violation(R, f, fn["qname"], "key-agreement", lam["l"][1], "the search orders elements by `%s` but the result is verified with `%s`" % (lkey, gkey))
 
 
+# --------------------------------------------------------------------------- C16.2 (structural)
+
+MUTATORS = {"emplace_back", "push_back", "clear", "resize", "erase", "insert", "pop_back", "assign", "swap", "emplace"}
+
+
+class _Look:
+    """descriptors of the expressions of one tree-level lookup function; local names never appear in them"""
+
+    def __init__(self, facts, fn):
+        self.facts = facts
+        self.fn = fn
+        self.fm = stages.FnModel(facts, fn)
+        self.q = fn["params"][-1]["did"] if fn.get("params") else None
+        self.pidx = {p["did"]: i for i, p in enumerate(fn["params"])}
+
+    def local_init(self, n):
+        n = strip(n)
+        if n is not None and n.get("k") == "DeclRefExpr" and n.get("dk") == "Var":
+            d = self.fm.decls.get(n.get("did"))
+            if d is not None and d.get("k") == "VarDecl" and kids(d) and n["did"] not in self.fm.assigned:
+                return kids(d)[0]
+        return None
+
+    def container(self, n, depth=0):
+        """'field' / 'field[param i]' when n names a member container (through reference locals), else None"""
+        n = strip(n)
+        if n is None or depth > 8:
+            return None
+        k = n.get("k")
+        if k == "MemberExpr" and n.get("dk") == "Field":
+            return n["name"]
+        if k in ("ArraySubscriptExpr", "CXXOperatorCallExpr") and len(kids(n)) >= 2:
+            b = self.container(kids(n)[-2], depth + 1)
+            if b is not None:
+                return "%s[%s]" % (b, self.desc(kids(n)[-1], depth + 1))
+        i = self.local_init(n)
+        if i is not None:
+            return self.container(i, depth + 1)
+        if k in ("CXXStaticCastExpr", "CXXConstCastExpr", "CStyleCastExpr", "CXXFunctionalCastExpr") and kids(n):
+            return self.container(kids(n)[0], depth + 1)
+        return None
+
+    def desc(self, n, depth=0):
+        n = strip(n)
+        if n is None or depth > 12:
+            return "?"
+        k = n.get("k")
+        if k in ("CXXStaticCastExpr", "CXXConstCastExpr", "CStyleCastExpr", "CXXFunctionalCastExpr") and len(kids(n)) == 1:
+            return self.desc(kids(n)[0], depth + 1)
+        if k == "IntegerLiteral":
+            return str(n["val"])
+        if k == "DeclRefExpr":
+            if n.get("did") == self.q:
+                return "q"
+            if n.get("did") in self.pidx:
+                return "param%d" % self.pidx[n["did"]]
+            i = self.local_init(n)
+            if i is not None:
+                return self.desc(i, depth + 1)
+            return "var#%s" % n.get("did")
+        c = self.container(n)
+        if c is not None:
+            return "C:" + c
+        if k in ("CallExpr", "CXXMemberCallExpr"):
+            nm = tbf.callee_name(n)
+            base = tbf.call_base(n)
+            args = tbf.call_args(n)
+            if nm in ("size",) and (base is not None or len(args) == 1):
+                return "size(%s)" % self.desc(base if base is not None else args[0], depth + 1)
+            if nm in ("begin", "cbegin", "end", "cend") and (base is not None or len(args) == 1):
+                return "%s(%s)" % (nm.lstrip("c"), self.desc(base if base is not None else args[0], depth + 1))
+            if nm in ("ref", "cref", "move", "forward", "make_const") and len(args) == 1:
+                return self.desc(args[0], depth + 1)
+            if nm in ("distance",) and len(args) == 2:
+                a, b = self.desc(args[0], depth + 1), self.desc(args[1], depth + 1)
+                if a.startswith("begin("):
+                    return "pos(%s)" % b
+            # single-return helper of the same class: inline
+            cands = [g for g in self.facts.methods_of(self.fn.get("cls")) if g["name"] == nm and tbf.body(g) is not None and len(g["params"]) == len(args)]
+            if len(cands) == 1:
+                g = cands[0]
+                st = kids(tbf.body(g))
+                if len(st) == 1 and st[0].get("k") == "ReturnStmt":
+                    sub = _Look(self.facts, g)
+                    sub.q = None
+                    bind = {pp["did"]: self.desc(a, depth + 1) for pp, a in zip(g["params"], args)}
+                    return sub._desc_bound(kids(st[0])[0], bind, depth + 1)
+            if base is not None:
+                return "%s(%s%s)" % (nm, self.desc(base, depth + 1), "".join("," + self.desc(a, depth + 1) for a in args))
+            return "%s(%s)" % (nm, ",".join(self.desc(a, depth + 1) for a in args))
+        if k == "UnaryOperator" and n.get("op") == "*":
+            return "*" + self.desc(kids(n)[0], depth + 1)
+        if k in ("ArraySubscriptExpr", "CXXOperatorCallExpr") and len(kids(n)) >= 2:
+            return "%s[%s]" % (self.desc(kids(n)[-2], depth + 1), self.desc(kids(n)[-1], depth + 1))
+        if k == "LambdaExpr":
+            lr = [x for x in walk(n) if x.get("k") == "ReturnStmt"]
+            ps = {pp["did"]: "arg%d" % i for i, pp in enumerate(n.get("params", []))}
+            if len(lr) == 1:
+                return "lambda{%s}" % self._desc_bound(kids(lr[0])[0], ps, depth + 1)
+            return "lambda{?}"
+        if k == "BinaryOperator":
+            return "(%s%s%s)" % (self.desc(kids(n)[0], depth + 1), n.get("op"), self.desc(kids(n)[1], depth + 1))
+        return self.facts.ntext(n)[:60]
+
+    def _desc_bound(self, n, bind, depth):
+        """desc with parameter / lambda-parameter bindings"""
+        old_desc = self.desc
+
+        def d2(x, dep=0):
+            x0 = strip(x)
+            if x0 is not None and x0.get("k") == "DeclRefExpr" and x0.get("did") in bind:
+                return bind[x0["did"]]
+            return old_desc(x, dep)
+        self.desc = d2
+        try:
+            return d2(n, depth)
+        finally:
+            self.desc = old_desc
+
+
+def _conjuncts(n):
+    n = strip(n)
+    if n is not None and n.get("k") == "BinaryOperator" and n.get("op") == "&&":
+        return _conjuncts(kids(n)[0]) + _conjuncts(kids(n)[1])
+    return [n]
+
+
+def _relation(lk, n, neg=False):
+    """canonical (rel, a, b) with rel in lt/le/eq/ne/true/false"""
+    n = strip(n)
+    if n is None:
+        return ("?",)
+    if n.get("k") == "UnaryOperator" and n.get("op") == "!":
+        return _relation(lk, kids(n)[0], not neg)
+    if n.get("k") == "BinaryOperator" and n.get("op") in ("<", "<=", ">", ">=", "==", "!="):
+        a, b = lk.desc(kids(n)[0]), lk.desc(kids(n)[1])
+        op = n["op"]
+        if neg:
+            op = {"<": ">=", "<=": ">", ">": "<=", ">=": "<", "==": "!=", "!=": "=="}[op]
+        if op == ">":
+            a, b, op = b, a, "<"
+        if op == ">=":
+            a, b, op = b, a, "<="
+        if op in ("==", "!="):
+            a, b = sorted([a, b])
+        return ({"<": "lt", "<=": "le", "==": "eq", "!=": "ne"}[op], a, b)
+    if n.get("k") in ("CallExpr", "CXXMemberCallExpr") and tbf.callee_name(n) == "has_value":
+        return ("false" if neg else "true", lk.desc(tbf.call_base(n)))
+    return ("false" if neg else "true", lk.desc(n))
+
+
+def _path_facts(lk, ret):
+    """relations known to hold when `ret` executes: conditions of enclosing ifs (then side), negated conditions of
+    enclosing ifs (else side) and of earlier `if(c) return ...;` guards in the enclosing blocks"""
+    out = []
+    cur = ret
+    p = cur.get("_p")
+    while p is not None:
+        if p.get("k") == "IfStmt":
+            c = kids(p)
+            cond = p["c"][0]
+            if len(p["c"]) > 1 and (p["c"][1] is cur or any(y is cur for y in walk(p["c"][1]))):
+                out += [_relation(lk, x) for x in _conjuncts(cond)]
+            elif len(p["c"]) > 2 and p["c"][2] is not None:
+                cj = _conjuncts(cond)
+                if len(cj) == 1:
+                    out.append(_relation(lk, cj[0], True))
+        if p.get("k") == "CompoundStmt":
+            for st in kids(p):
+                if st is cur:
+                    break
+                if st.get("k") == "IfStmt" and (len(st["c"]) < 3 or st["c"][2] is None):
+                    th = st["c"][1]
+                    last = th
+                    while last is not None and last.get("k") == "CompoundStmt" and kids(last):
+                        last = kids(last)[-1]
+                    if last is not None and last.get("k") == "ReturnStmt":
+                        cj = _conjuncts(st["c"][0])
+                        if len(cj) == 1:
+                            out.append(_relation(lk, cj[0], True))
+        cur = p
+        p = p.get("_p")
+    return out
+
+
+def _directory_discipline(facts, fn, lk, dname, gcont, res, R, f):
+    """the lookup searches a member `dname` that is not the group container: it must be a directory of the groups'
+    last indices, refreshed after every modification of the group containers"""
+    cls = fn.get("cls")
+    gfield = gcont.split("[")[0]
+    fillers = []
+    for m in facts.methods_of(cls):
+        b = tbf.body(m)
+        if b is None:
+            continue
+        for x in walk(b):
+            if x.get("k") in ("CallExpr", "CXXMemberCallExpr") and tbf.callee_name(x) in ("push_back", "emplace_back") and tbf.call_base(x) is not None:
+                ml = _Look(facts, m)
+                c = ml.container(tbf.call_base(x))
+                if c is not None and c.split("[")[0] == dname:
+                    fillers.append((m, x, ml))
+    if not fillers or len(set(id(m) for m, _x, _l in fillers)) != 1:
+        raise AnalysisBroken("%s: the lookup searches member '%s' which is filled by %d functions (a directory filled in one place was expected)" % (fn["qname"], dname, len(set(id(m) for m, _x, _l in fillers))))
+    filler = fillers[0][0]
+    ok_fill = False
+    for m, x, ml in fillers:
+        tbf.link_parents(tbf.body(m))
+        a = tbf.call_args(x)
+        if len(a) == 1:
+            a0 = strip(a[0])
+            if a0.get("k") in ("CallExpr", "CXXMemberCallExpr") and tbf.callee_name(a0) == "getEndingSpacialIndex":
+                b0 = strip(tbf.call_base(a0))
+                rf = [p for p in tbf.ancestors(x) if p.get("k") == "CXXForRangeStmt"]
+                if rf and b0 is not None and b0.get("k") == "DeclRefExpr" and rf[0]["c"][0] is not None and rf[0]["c"][0].get("did") == b0.get("did"):
+                    c = ml.container(rf[0]["c"][1])
+                    if c is not None and c.split("[")[0] == gfield:
+                        ok_fill = True
+    res.instance(R, "%s directory '%s'" % (fn["name"], dname), facts.loc(filler), "filled by %s from the groups' last indices in container order: %s" % (filler["name"], ok_fill))
+    if not ok_fill:
+        res.violation(R, f, fn["qname"], "directory-content:" + dname, filler["l"][1],
+                      "the lookup searches '%s' but that member is not filled with getEndingSpacialIndex() of the groups of '%s' in order" % (dname, gfield))
+    # every function that modifies the group containers must refresh the directory afterwards, unconditionally
+    for m in facts.methods_of(cls):
+        b = tbf.body(m)
+        if b is None or m is filler:
+            continue
+        tbf.link_parents(b)
+        ml = _Look(facts, m)
+        depth = gcont.count("[")
+        muts = []
+        for x in walk(b):
+            if x.get("k") in ("CallExpr", "CXXMemberCallExpr") and tbf.callee_name(x) in MUTATORS and tbf.call_base(x) is not None:
+                c_ = ml.container(tbf.call_base(x)) or ""
+                if c_.split("[")[0] == gfield and (c_.count("[") == depth or tbf.callee_name(x) in ("clear", "assign", "swap", "erase")):
+                    muts.append(x)
+        if not muts:
+            continue
+        calls = [x for x in walk(b) if x.get("k") in ("CallExpr", "CXXMemberCallExpr") and tbf.callee_name(x) == filler["name"] and x.get("_p") is b]
+        lastmut = max(x["l"][1] for x in muts)
+        good = [c for c in calls if c["l"][1] >= lastmut]
+        # no exit between the first modification and the refresh
+        firstmut = min(x["l"][1] for x in muts)
+        def config_guard(r):
+            # `if(<condition on the configuration only>) return;` - a validity guard of the configuration (tree height <= 0), not a path of a valid tree
+            p_ = r.get("_p")
+            while p_ is not None and p_.get("k") == "CompoundStmt":
+                p_ = p_.get("_p")
+            if p_ is None or p_.get("k") != "IfStmt":
+                return False
+            names = set(y.get("name") for y in walk(p_["c"][0]) if y.get("k") in ("MemberExpr", "DeclRefExpr") and y.get("dk") in ("Field", "Var", "ParmVar"))
+            return names == {"configuration"}
+        def refreshed_before(r):
+            # the exit is preceded, in its own block, by a refresh call that comes after every modification made so far
+            blk = r.get("_p")
+            if blk is None or blk.get("k") != "CompoundStmt":
+                return False
+            prior = [st for st in kids(blk) if st["l"][1] < r["l"][1] or st is r]
+            rc = [st for st in prior if st.get("k") in ("CallExpr", "CXXMemberCallExpr") and tbf.callee_name(st) == filler["name"]]
+            return bool(rc) and not any(mx["l"][1] > rc[-1]["l"][1] and mx["l"][1] < r["l"][1] for mx in muts)
+        exits = [x for x in walk(b, into_lambdas=False) if x.get("k") == "ReturnStmt" and x["l"][1] > firstmut and (not good or x["l"][1] < good[-1]["l"][1])
+                 and not config_guard(x) and not refreshed_before(x)]
+        res.instance(R, "%s refresh after %s" % (dname, m["name"]), facts.loc(m), "%d modifications of '%s', refresh call after the last one: %s, exits in between: %d" % (len(muts), gfield, bool(good), len(exits)))
+        if good and exits:
+            raise AnalysisBroken("%s: %s() leaves through an early return (line %d) between a modification of '%s' and the refresh of the directory '%s'; "
+                                 "whether that path can leave a stale directory depends on run-time state - re-confirm by reading" % (fn["qname"], m["name"], exits[0]["l"][1], gfield, dname))
+        if not good:
+            res.violation(R, f, m["qname"], "directory-stale:%s:%s" % (dname, m["name"]), (exits[0] if exits else muts[-1])["l"][1],
+                          "%s modifies the groups in '%s' but %s: lookups through the directory '%s' then name the wrong group and report existing cells/leaves as absent"
+                          % (m["name"], gfield, "never calls %s() afterwards" % filler["name"], dname))
+
+
 def treelevel(facts, name, container_field, res):
     R = "C16.2.tree-lookup"
     fns = [m for m in facts.methods_of("TbfTree") if m["name"] == name]
     if len(fns) != 1:
         raise AnalysisBroken("TbfTree::%s not found" % name)
     fn = fns[0]
-    fm = stages.FnModel(facts, fn)
+    lk = _Look(facts, fn)
+    fm = lk.fm
     f = tbf.rel(facts.path_of(fn))
-    query = fn["params"][-1]
     rets = [x for x in walk(fm.body, into_lambdas=False) if x.get("k") == "ReturnStmt"]
-    succ = [r for r in rets if "make_pair" in facts.ntext(r)]
+    succ = [r for r in rets if not is_empty_return(facts, r)]
     empty = [r for r in rets if r not in succ]
-    if len(succ) != 1 or not empty:
+    if not succ or not empty:
         raise AnalysisBroken("TbfTree::%s: %d pair-returning / %d empty returns" % (name, len(succ), len(empty)))
-    s = succ[0]
-    conds = [facts.ntext(a["c"][0]) for a in tbf.ancestors(s) if a.get("k") == "IfStmt"]
-    q = query["name"]
-    need = {
-        "iterator != end": any(re.match(r"^\w+!=\w+$", c) for c in conds),
-        "first <= query <= last": any((re.search(r"getStartingSpacialIndex\(\)<=%s(\W|$)" % q, c) or re.search(r"(\W|^)%s>=\w+\.getStartingSpacialIndex\(\)" % q, c))
-                                      and (re.search(r"(\W|^)%s<=\w+\.getEndingSpacialIndex\(\)" % q, c) or re.search(r"getEndingSpacialIndex\(\)>=%s(\W|$)" % q, c)) for c in conds),
-        "in-group lookup succeeded": any(re.match(r"^\w+$", c) for c in conds),
-    }
-    res.instance(R, "TbfTree::%s" % name, facts.loc(s), "success return under %s" % conds)
-    for k, ok in need.items():
-        if not ok:
-            res.violation(R, f, fn["qname"], k, s["l"][1], "a (group, position) pair is returned without the guard `%s`" % k)
-    # position returned is the in-group lookup's result for the same query in the same group
-    st = facts.ntext(s)
-    lookups = [x for x in walk(fm.body) if x.get("k") in ("CallExpr", "CXXMemberCallExpr") and tbf.callee_name(x) == "getElementFromSpacialIndex"]
-    oklook = len(lookups) == 1 and facts.ntext(tbf.call_args(lookups[0])[0]) == q
-    if not oklook:
-        res.violation(R, f, fn["qname"], "lookup-query", s["l"][1], "the in-group lookup is not made with the queried index")
-    else:
-        grp = facts.ntext(tbf.call_base(lookups[0]))
-        holder = [v["name"] for v in fm.decls.values() if v.get("k") == "VarDecl" and kids(v) and any(y is lookups[0] for y in walk(v))]
-        if ("std::ref(%s)" % grp) not in st or not holder or ("*%s)" % holder[0]) not in st:
-            res.violation(R, f, fn["qname"], "returned-pair", s["l"][1], "the returned pair is not (the searched group, the position found in it): %s" % st[:120])
-    # groups are searched by their last index
-    lbs = [x for x in walk(fm.body) if x.get("k") == "CallExpr" and tbf.callee_name(x) == "lower_bound"]
-    oks = False
-    for lb in lbs:
-        lam = [strip(a) for a in tbf.call_args(lb) if strip(a).get("k") == "LambdaExpr"]
-        if lam:
-            lr = [x for x in walk(lam[0]) if x.get("k") == "ReturnStmt"]
-            t = facts.ntext(kids(lr[0])[0]) if lr else ""
-            oks = re.match(r"^\w+\.getEndingSpacialIndex\(\)<\w+$", t) is not None
-            res.instance(R, "TbfTree::%s group search" % name, facts.loc(lb), t)
-    if not oks:
-        res.violation(R, f, fn["qname"], "group-search-key", fn["l"][1], "groups are not searched by `last index of the group < query`")
+    last = kids(fm.body)[-1] if kids(fm.body) else None
+    if last is None or last.get("k") != "ReturnStmt" or not is_empty_return(facts, last):
+        res.violation(R, f, fn["qname"], "fall-through", fn["l"][1], "the fall-through exit of the lookup is not an empty optional")
+    nsearch = 0
+    for s in succ:
+        facts_on_path = _path_facts(lk, s)
+        # the returned pair: (group, position)
+        mp = [x for x in walk(s) if x.get("k") == "CallExpr" and tbf.callee_name(x) in ("make_pair", "pair")]
+        parts = tbf.call_args(mp[0]) if mp else []
+        if not parts:
+            inits = [x for x in walk(s) if x.get("k") in ("InitListExpr", "CXXUnresolvedConstructExpr", "CXXConstructExpr") and len(kids(x)) == 2]
+            parts = kids(inits[-1]) if inits else []
+        if len(parts) != 2:
+            raise AnalysisBroken("TbfTree::%s: the positive return at line %d is not a (group, position) pair" % (name, s["l"][1]))
+        gdesc = lk.desc(parts[0])
+        pnode = strip(parts[1])
+        holder = None
+        if pnode.get("k") == "UnaryOperator" and pnode.get("op") == "*":
+            holder = strip(kids(pnode)[0])
+        elif pnode.get("k") in ("CallExpr", "CXXMemberCallExpr") and tbf.callee_name(pnode) == "value":
+            holder = strip(tbf.call_base(pnode))
+        hinit = lk.local_init(holder) if holder is not None else None
+        hcall = strip(hinit) if hinit is not None else None
+        if hcall is None or hcall.get("k") not in ("CallExpr", "CXXMemberCallExpr") or tbf.callee_name(hcall) != "getElementFromSpacialIndex":
+            res.violation(R, f, fn["qname"], "returned-pair", s["l"][1], "the returned position is not the result of the in-group lookup: %s" % facts.ntext(s)[:120])
+            continue
+        if lk.desc(tbf.call_args(hcall)[0]) != "q":
+            res.violation(R, f, fn["qname"], "lookup-query", s["l"][1], "the in-group lookup is not made with the queried index")
+        gl = lk.desc(tbf.call_base(hcall))
+        if gl != gdesc:
+            res.violation(R, f, fn["qname"], "returned-pair", s["l"][1], "the returned group (%s) is not the group the position was found in (%s)" % (gdesc, gl))
+        hd = "var#%s" % holder.get("did")
+        need = {}
+        need["in-group lookup succeeded"] = any(r[0] == "true" and r[1] in (hd, lk.desc(holder)) for r in facts_on_path) or \
+            any(r[0] == "ne" and "nullopt" in "".join(r[1:]) for r in facts_on_path)
+        need["first <= query <= last"] = ("le", "getStartingSpacialIndex(%s)" % gl, "q") in facts_on_path and ("le", "q", "getEndingSpacialIndex(%s)" % gl) in facts_on_path
+        # how the group was obtained: *iterator (needs iterator != end) or container[position] (needs position < size)
+        gnode = strip(tbf.call_base(hcall))
+        gi = lk.local_init(gnode)
+        gi = strip(gi) if gi is not None else gnode
+        bound_ok, how, search_desc, gcont = False, "?", None, None
+        if gi.get("k") == "UnaryOperator" and gi.get("op") == "*":
+            itd = lk.desc(kids(gi)[0])
+            how = "*iterator"
+            search_desc = itd
+            for r in facts_on_path:
+                if r[0] == "ne" and itd in r[1:]:
+                    other = r[1] if r[2] == itd else r[2]
+                    if other.startswith("end(C:"):
+                        bound_ok = True
+                        gcont = other[len("end(C:"):-1]
+        elif gi.get("k") in ("ArraySubscriptExpr", "CXXOperatorCallExpr") and len(kids(gi)) >= 2:
+            gcont = lk.container(kids(gi)[-2])
+            idx = lk.desc(kids(gi)[-1])
+            how = "container[position]"
+            search_desc = idx
+            if gcont is not None:
+                for r in facts_on_path:
+                    if r == ("lt", idx, "size(C:%s)" % gcont) or (r[0] == "ne" and set(r[1:]) == {idx, "size(C:%s)" % gcont}):
+                        bound_ok = True
+        need["group position is inside the container (%s)" % ("iterator != end" if how == "*iterator" else "position < size")] = bound_ok
+        res.instance(R, "TbfTree::%s" % name, facts.loc(s), "positive return: group by %s; facts on its path: %s" % (how, ["%s(%s)" % (r[0], ",".join(r[1:])) for r in facts_on_path]))
+        for k, ok in need.items():
+            if not ok:
+                res.violation(R, f, fn["qname"], k.split(" (")[0] if k.startswith("group position") else k, s["l"][1], "a (group, position) pair is returned without the guard `%s`" % k)
+        if gcont is None or gcont.split("[")[0] != container_field:
+            res.violation(R, f, fn["qname"], "group-container", s["l"][1], "the group handed back does not come from the tree's '%s' (it comes from %s)" % (container_field, gcont))
+            continue
+        # ---- how the group was searched: lower_bound over the groups by last index, or over a directory of last indices
+        m_ = re.match(r"^(?:pos\()?lower_bound\(begin\(C:([^)]*)\),end\(C:([^)]*)\),q(?:,lambda\{(.*)\})?\)\)?$", search_desc or "")
+        if not m_:
+            raise AnalysisBroken("TbfTree::%s: group search not recognised (%s): re-confirm by reading" % (name, search_desc))
+        nsearch += 1
+        c1, c2, cmp_ = m_.group(1), m_.group(2), m_.group(3)
+        res.instance(R, "TbfTree::%s group search" % name, facts.loc(fn), "lower_bound over %s with %s" % (c1, cmp_ or "operator<"))
+        if c1 != c2:
+            res.violation(R, f, fn["qname"], "group-search-range", fn["l"][1], "the group search runs from begin(%s) to end(%s)" % (c1, c2))
+        elif c1 == gcont:
+            if cmp_ != "(getEndingSpacialIndex(arg0)<arg1)":
+                res.violation(R, f, fn["qname"], "group-search-key", fn["l"][1], "groups are not searched by `last index of the group < query` (comparator: %s)" % cmp_)
+        else:
+            if cmp_ is not None and cmp_ != "(arg0<arg1)":
+                res.violation(R, f, fn["qname"], "group-search-key", fn["l"][1], "the directory '%s' is not searched with `entry < query` (comparator: %s)" % (c1, cmp_))
+            if how != "container[position]":
+                raise AnalysisBroken("TbfTree::%s: a directory search whose result is not used as a position in the group container" % name)
+            dsub = c1.split("[", 1)[1] if "[" in c1 else None
+            gsub = gcont.split("[", 1)[1] if "[" in gcont else None
+            if dsub != gsub:
+                res.violation(R, f, fn["qname"], "directory-level", fn["l"][1], "the directory is read at [%s but the groups at [%s" % (dsub, gsub))
+            _directory_discipline(facts, fn, lk, c1.split("[")[0], gcont, res, R, f)
     for r in empty:
-        t = facts.ntext(r).replace(" ", "")
-        if not re.search(r"optional<.*>\(\);?$", t):
+        if not is_empty_return(facts, r):
             res.violation(R, f, fn["qname"], "empty-return@%d" % r["l"][1], r["l"][1], "the fall-through return is not an empty optional")
 
 
